@@ -11,8 +11,48 @@ import billiard
 from harness import targets
 
 
+SCALE = float(os.environ.get('VERIF_TIME_SCALE', '1'))
+
+
+def collect(conns, whos, bound):
+    """drain the parties' event streams until each said 'done' or the bound is reached"""
+    events, bad, open_ = [], 0, dict(enumerate(conns))
+    deadline = time.time() + bound
+    while open_ and time.time() < deadline:
+        idle = True
+        for i, r in list(open_.items()):
+            try:
+                while r.poll(0):
+                    idle = False
+                    tag, x = r.recv()
+                    if tag == 'ev':
+                        events.append(x)
+                    else:
+                        bad += x
+                        del open_[i]
+                        break
+            except (EOFError, OSError):
+                events.append({'k': 'party_died', 'who': whos[i], 'p': 0, 'n': 0, 't0': 0, 't1': 0, 'to': 0})
+                del open_[i]
+        if idle:
+            time.sleep(0.01)
+    for i in open_:
+        events.append({'k': 'party_hung', 'who': whos[i], 'p': 0, 'n': 0, 't0': 0, 't1': 0, 'to': 0})
+    return events, bad
+
+
+def _rebase(events):
+    ts = [e['t0'] for e in events if e['t0']]
+    base = min(ts) if ts else 0
+    for e in events:
+        if e['t0']:
+            e['t0'] -= base
+            e['t1'] -= base
+    events.sort(key=lambda e: (e['t1'], e['t0']))
+
+
 def exchange(kind, method, nprod, ncons, per, maxsize, size, timeout=None, nowait=False,
-             use_threads=False, delay=0.0):
+             use_threads=False, delay=0.0, cons_in_parent=False):
     ctx = billiard.get_context(method)
     if kind == 'Queue':
         q = ctx.Queue(maxsize)
@@ -23,11 +63,13 @@ def exchange(kind, method, nprod, ncons, per, maxsize, size, timeout=None, nowai
         maxsize = 0
     total = nprod * per
     share = [total // ncons + (1 if i < total % ncons else 0) for i in range(ncons)]
-    procs, conns = [], []
+    procs, conns, whos = [], [], []
     Proc = threading.Thread if use_threads else ctx.Process
+    CProc = threading.Thread if (use_threads or cons_in_parent) else ctx.Process
     for c in range(ncons):
         r, w = ctx.Pipe(duplex=False)
-        t = Proc(target=targets.q_consumer,
+        whos.append(100 + c)
+        t = CProc(target=targets.q_consumer,
                  args=(q, 100 + c, share[c], size, w, timeout, kind == 'JoinableQueue', delay))
         t.daemon = True
         t.start()
@@ -35,46 +77,33 @@ def exchange(kind, method, nprod, ncons, per, maxsize, size, timeout=None, nowai
         conns.append(r)
     if timeout is not None:
         time.sleep(timeout * 1.5)          # let some timed gets expire on an empty queue
+    if cons_in_parent:
+        time.sleep(0.3)                    # the consumers are inside get() before anything is put
     for p in range(nprod):
         r, w = ctx.Pipe(duplex=False)
+        whos.append(p + 1)
         t = Proc(target=targets.q_producer, args=(q, p + 1, per, size, w, nowait))
         t.daemon = True
         t.start()
         procs.append(t)
         conns.append(r)
-    events = []
-    bad = 0
-    join_ev = None
-    if kind == 'JoinableQueue':
-        # join once all puts have returned
-        pass
-    deadline = time.time() + 90
-    for i, r in enumerate(conns):
-        if not r.poll(max(0.1, deadline - time.time())):
-            raise RuntimeError('%s %s: a party did not report' % (kind, method))
-        x = r.recv()
-        if i < ncons:
-            events += x[0]
-            bad += x[1]
-        else:
-            events += x
-    if kind == 'JoinableQueue':
+    events, bad = collect(conns, whos, 60 * SCALE)
+    stuck = any(e['k'] in ('party_hung', 'party_died') for e in events)
+    if kind == 'JoinableQueue' and not stuck:
         t0 = targets._us()
         done = []
         th = threading.Thread(target=lambda: (q.join(), done.append(1)), daemon=True)
         th.start()
-        th.join(20)
+        th.join(20 * SCALE)
         events.append({'k': 'join' if done else 'join_hung', 'who': 0, 'p': 0, 'n': 0, 't0': t0,
                        't1': targets._us(), 'to': 0})
-    for t in procs:
-        t.join(10)
-    base = min(e['t0'] for e in events)
-    for e in events:
-        e['t0'] -= base
-        e['t1'] -= base
-    events.sort(key=lambda e: (e['t1'], e['t0']))
+    if not stuck:
+        for t in procs:
+            t.join(10)
+    _rebase(events)
     return {'name': '%s/%s/%dx%d/max%d/size%d%s' % (kind, method, nprod, ncons, maxsize, size,
-                                                    '/threads' if use_threads else ''),
+                                                    '/threads' if use_threads else
+                                                    '/consumer-in-parent' if cons_in_parent else ''),
             'maxsize': maxsize, 'drained': True, 'settle': 300000, 'corrupt': bad, 'events': events}
 
 
@@ -120,6 +149,44 @@ def join_early():
             'corrupt': 0, 'events': ev}
 
 
+def join_many():
+    """several processes blocked in JoinableQueue.join(): all of them return once the last
+    task_done has been made"""
+    ctx = billiard.get_context('fork')
+    q = ctx.JoinableQueue()
+    ev = []
+    for k in (1, 2):
+        t0 = targets._us()
+        q.put((1, k, b''))
+        ev.append({'k': 'put', 'who': 1, 'p': 1, 'n': k, 't0': t0, 't1': targets._us(), 'to': 0})
+    conns, whos, ps = [], [], []
+    for j in range(3):
+        r, w = ctx.Pipe(duplex=False)
+        p = ctx.Process(target=targets.q_joiner, args=(q, 200 + j, w))
+        p.daemon = True
+        p.start()
+        w.close()
+        conns.append(r)
+        whos.append(200 + j)
+        ps.append(p)
+    time.sleep(0.5 * SCALE)                # the joiners are inside join()
+    for k in (1, 2):
+        t0 = targets._us()
+        item = q.get()
+        ev.append({'k': 'get', 'who': 100, 'p': item[0], 'n': item[1], 't0': t0, 't1': targets._us(), 'to': 0})
+        t0 = targets._us()
+        q.task_done()
+        ev.append({'k': 'task_done', 'who': 100, 'p': 1, 'n': k, 't0': t0, 't1': targets._us(), 'to': 0})
+    more, _ = collect(conns, whos, 10 * SCALE)
+    ev += [e if e['k'] != 'party_hung' else dict(e, k='join_hung') for e in more]
+    for p in ps:
+        if p.is_alive():
+            p.terminate()
+    _rebase(ev)
+    return {'name': 'JoinableQueue/join-many', 'maxsize': 0, 'drained': True, 'settle': 300000,
+            'corrupt': 0, 'events': ev}
+
+
 def main():
     out, tier = sys.argv[1], sys.argv[2]
     thorough = tier == 'thorough'
@@ -134,7 +201,10 @@ def main():
     hs.append(exchange('Queue', 'fork', 2, 1, per, 2, 10, nowait=True))
     hs.append(exchange('Queue', 'fork', 1, 2, per, 1, 10, timeout=0.05))
     hs.append(exchange('Queue', 'fork', 2, 2, per, 2, 1000, use_threads=True))
+    hs.append(exchange('Queue', 'spawn', 2, 1, per, 2, 10, cons_in_parent=True))
+    hs.append(exchange('JoinableQueue', 'spawn', 1, 1, per, 2, 10, cons_in_parent=True))
     hs.append(join_early())
+    hs.append(join_many())
     with open(out + '.tmp', 'w') as fh:
         json.dump(hs, fh)
     os.replace(out + '.tmp', out)
